@@ -18,6 +18,9 @@ def one(spec):
         c, o = vx.classify(d, lm)
         if c == 'verification': fails.append(o.get('id'))
         elif c in ('tool', 'undecided'): tools.append(o.get('message', '')[:120])
+    vr = (r.get('json') or {}).get('verification-results') or {}
+    if not tools and not fails and not vr.get('success'):
+        tools = ['verus reported no success and no diagnostic (internal error of the verifier?): ' + (r.get('stderr') or '')[-200:]]
     st = 'TOOL-ERROR ' + '; '.join(tools[:2]) if tools else ('failed' if fails else 'ok')
     return os.path.basename(spec), st, fails
 with cf.ThreadPoolExecutor(8) as ex:
